@@ -30,13 +30,23 @@ type Slot struct {
 	Reader   bool     `json:"r,omitempty"`
 	Writer   bool     `json:"w,omitempty"`
 	Accessor bool     `json:"a,omitempty"`
+	Type     string   `json:"ty,omitempty"`  // :type (the same for every definition of the slot name in a case)
+	Shared   bool     `json:"cls,omitempty"` // :allocation :class; only the slot name k0, which is outside the universe
+}
+
+// Default is one entry of a class's :default-initargs.
+type Default struct {
+	Arg  string `json:"a"`
+	Form string `json:"f"`
+	Val  string `json:"v"`
 }
 
 // Class is one defclass form; Supers are indices into Case.Classes in the
 // order written.
 type Class struct {
-	Supers []int  `json:"sup"`
-	Slots  []Slot `json:"slots"`
+	Supers   []int     `json:"sup"`
+	Slots    []Slot    `json:"slots"`
+	Defaults []Default `json:"dflt,omitempty"`
 }
 
 type model struct {
@@ -165,6 +175,52 @@ type effSlot struct {
 	val      string
 	formFrom int // class the initform comes from
 	levels   int // number of classes on the precedence list defining the slot
+	typ      string
+	direct   bool // the class itself defines the slot
+	// initform of the class's own definition ("" = none)
+	directForm, directVal string
+}
+
+// sharedSlot describes the class-allocated slot k0 of class c: the class
+// whose definition owns the shared location (the most specific class on the
+// precedence list defining it), and whether any definition has an initform.
+func (m *model) sharedSlot(c int) (owner int, hasForm, exists bool) {
+	owner = -1
+	for _, k := range m.prec(c) {
+		if k < 0 {
+			continue
+		}
+		for _, sd := range m.classes[k].Slots {
+			if sd.Shared {
+				if !exists {
+					owner, exists = k, true
+				}
+				if sd.Form != "" {
+					hasForm = true
+				}
+			}
+		}
+	}
+	return
+}
+
+// defaults lists the effective default initargs of c: for every initarg the
+// entry of the most specific class naming it, in precedence order.
+func (m *model) defaults(c int) (out []Default, from []int) {
+	seen := map[string]bool{}
+	for _, k := range m.prec(c) {
+		if k < 0 {
+			continue
+		}
+		for _, d := range m.classes[k].Defaults {
+			if !seen[d.Arg] {
+				seen[d.Arg] = true
+				out = append(out, d)
+				from = append(from, k)
+			}
+		}
+	}
+	return
 }
 
 func (m *model) slots(c int) []effSlot {
@@ -175,6 +231,9 @@ func (m *model) slots(c int) []effSlot {
 			continue
 		}
 		for _, sd := range m.classes[k].Slots {
+			if sd.Shared {
+				continue // class-allocated slots are modelled by sharedSlot
+			}
 			es := byName[sd.Name]
 			if es == nil {
 				es = &effSlot{name: sd.Name, formFrom: -1}
@@ -195,6 +254,13 @@ func (m *model) slots(c int) []effSlot {
 			}
 			if !es.hasForm && sd.Form != "" {
 				es.hasForm, es.form, es.val, es.formFrom = true, sd.Form, sd.Val, k
+			}
+			if sd.Type != "" {
+				es.typ = sd.Type
+			}
+			if k == c {
+				es.direct = true
+				es.directForm, es.directVal = sd.Form, sd.Val
 			}
 		}
 	}
@@ -248,37 +314,121 @@ func (m *model) instance(c int, args []string, universe []string, allArgs []stri
 	}
 	fs := map[string]bool{}
 	slots := m.slots(c)
+	// the defaulted initarg list: explicit initargs, then every effective
+	// default initarg that was not supplied explicitly (7.1.3)
+	type supplied struct {
+		arg, val string
+		explicit bool
+	}
+	var list []supplied
+	given := map[string]bool{}
+	for _, a := range args {
+		list = append(list, supplied{a, argVal(a, allArgs), true})
+		given[a] = true
+	}
+	dfl, from := m.defaults(c)
+	for k, d := range dfl {
+		if !given[d.Arg] {
+			list = append(list, supplied{d.Arg, d.Val, false})
+			if from[k] != c {
+				fs[featInheritedDefault] = true
+			}
+		}
+	}
 	for _, es := range slots {
 		state[es.name] = unbound
-		supplied := 0
-		for _, a := range args { // leftmost supplied initarg of the slot
+		n, explicit := 0, 0
+		for _, a := range list { // leftmost supplied initarg of the slot
 			for _, ia := range es.initargs {
-				if ia == a {
-					if supplied == 0 {
-						state[es.name] = argVal(a, allArgs)
+				if ia == a.arg {
+					if n == 0 {
+						state[es.name] = a.val
 					}
-					supplied++
+					n++
+					if a.explicit {
+						explicit++
+					}
 				}
 			}
 		}
-		if 1 < supplied {
+		if 1 < explicit {
 			fs["two-initargs-one-slot"] = true
 		}
-		if supplied == 0 && es.hasForm {
+		if n == 0 && es.hasForm {
 			state[es.name] = es.val
 		}
 	}
-	for _, a := range args {
+	for _, a := range list {
 		n := 0
 		for _, es := range slots {
 			for _, ia := range es.initargs {
-				if ia == a {
+				if ia == a.arg {
 					n++
 				}
 			}
 		}
 		if 1 < n {
 			fs["shared-initarg"] = true
+		}
+	}
+	for f := range fs {
+		feats = append(feats, f)
+	}
+	sort.Strings(feats)
+	return
+}
+
+// constructs with a listed finding that the model can recognise
+const (
+	// a default initarg of a superclass is in force
+	featInheritedDefault = "inherited-default-initarg"
+	// the class-allocated slot is owned by a superclass
+	featSharedInherited = "class-slot-inherited"
+	// a class-allocated slot with an initform while another instance is made
+	featSharedReset = "class-slot-reset-by-make-instance"
+	// a reader or accessor applied to an instance whose slot is unbound
+	featReaderUnbound = "reader-of-unbound-slot"
+	// change-class to a class that inherits slots
+	featChangeInherited = "change-class-inherited-slots"
+	// change-class where a new slot must be initialised from an initform that needs evaluation or is inherited
+	featChangeInitform = "change-class-new-slot-initform"
+)
+
+// selfEvaluating tells whether an initform's source is its own value.
+func selfEvaluating(form string) bool {
+	if form == "" || form == "nil" {
+		return true
+	}
+	if form[0] == '"' {
+		return true
+	}
+	_, err := strconv.Atoi(form)
+	return err == nil
+}
+
+// changed gives the expected slot state after (change-class i y) of an
+// instance of x in state before: slots of y that x also has keep their value
+// or unboundness, new slots get y's initform or stay unbound, others vanish.
+func (m *model) changed(x, y int, before map[string]string, universe []string) (state map[string]string, feats []string) {
+	state = map[string]string{}
+	for _, n := range universe {
+		state[n] = missing
+	}
+	fs := map[string]bool{}
+	for _, es := range m.slots(y) {
+		if !es.direct {
+			fs[featChangeInherited] = true
+		}
+		if before[es.name] != missing && before[es.name] != "" {
+			state[es.name] = before[es.name]
+			continue
+		}
+		state[es.name] = unbound
+		if es.hasForm {
+			state[es.name] = es.val
+		}
+		if es.direct && (es.directForm != es.form || !selfEvaluating(es.form)) {
+			fs[featChangeInitform] = true
 		}
 	}
 	for f := range fs {
